@@ -158,7 +158,7 @@ fn harvest_one(sd_jwt: &str, fmt: Fmt, h: &mut Harvest, ctxd: &dyn Fn() -> Value
 fn claims_for(r: &mut Rng, same: bool, thread: u32, i: u64) -> Value {
     let mut v = json!({
         "iss": "https://issuer.example/A", "exp": 4_000_000_000u64, "jti": "urn:uuid:6c5c0a49-b589-431d-bae7-219122a9ec2c", "sub": "user-42", "nonce": "n-0S6_WzA2Mj",
-        "name": "Erika Mustermann", "address": {"street": "Heidestr. 17", "city": "Köln", "geo": {"lat": 50.9, "lon": 6.9}},
+        "name": "Erika Mustermann", "stra\u{df}e": "Heidestr. 17", "\u{438}\u{43c}\u{44f}": {"\u{4e2d}": 1, "\u{1f600}k": [true]}, "address": {"street": "Heidestr. 17", "city": "Köln", "geo": {"lat": 50.9, "lon": 6.9}},
         "nationalities": ["DE", "FR", ["x", "y"]], "items": [{"a": 1}, {"b": [1, 2]}], "flag": true, "none": null,
         // names that read like paths of other claims: every disclosure still needs its own salt
         "address.street": "x", "address.geo.lat": 1, "nationalities[1]": "FR", "items[0].a": 1, "items[1]": {"b": [1, 2]},
@@ -484,6 +484,45 @@ fn many_instances_leg(ctx: &Ctx, l: &mut Local, all_salts: &mut Vec<String>, all
         created = target;
         window(&mut h, created);
         created += 64;
+    }
+    // "instance storm": all cores construct short-lived issuers at the same time (same clock
+    // reading, same counter window) and each issues one small credential
+    {
+        let storm_threads = 16u32;
+        let per = if ctx.tier == Tier::Quick { 6_000u64 } else { 60_000 };
+        let barrier = Arc::new(Barrier::new(storm_threads as usize));
+        let mut hs = vec![];
+        for t in 0..storm_threads {
+            let key = key.clone();
+            let u = u.clone();
+            let strat = strat.clone();
+            let barrier = barrier.clone();
+            hs.push(std::thread::spawn(move || {
+                let mut h = Harvest::default();
+                barrier.wait();
+                for i in 0..per {
+                    let mut issuer = SDJWTIssuer::new(key.clone(), Some("HS256".to_string()));
+                    if let Outcome::Ok(s) = api::issue(&mut issuer, &u, &strat, None, false, Fmt::Compact) {
+                        harvest_one(&s, Fmt::Compact, &mut h, &|| json!({"storm_thread": t, "i": i}));
+                    }
+                }
+                let _ = api::take_counts();
+                h
+            }));
+        }
+        let mut storm = 0u64;
+        for x in hs {
+            if let Ok(sh) = x.join() {
+                storm += sh.credentials;
+                h.salts.extend(sh.salts);
+                h.decoys.extend(sh.decoys);
+                for (sub, obs, detail) in sh.problems.into_iter().take(5) {
+                    l.violate(Violation { subcheck: sub, class: "instance storm".into(), observed: obs, case: 0, detail });
+                }
+            }
+        }
+        l.add("many-instances.storm-credentials", storm);
+        l.evals += storm / 10;
     }
     let mut seen: HashSet<&String> = HashSet::new();
     for s in h.salts.iter().chain(h.decoys.iter()) {
